@@ -365,6 +365,25 @@ pub fn worker(w: &mut Worker) {
         }
     }
 
+    // results that read as "false" to a condition are texts like any other: every way of arriving at
+    // one through concat (every split point), trim, case mapping, substring and replace
+    for fw in ["0", "false", "no", "FALSE", "No", "NO", "False", "and", "or", "not", "(", ")", "true"] {
+        for cut in 0..=fw.len() {
+            r.case("concat", vec![fw[..cut].to_string(), fw[cut..].to_string()], false, vec![s(fw)], true);
+            r.case("concat", vec![fw[..cut].to_string(), String::new(), fw[cut..].to_string()], false, vec![s(fw)], true);
+        }
+        r.case("concat", vec![fw.to_string()], false, vec![s(fw)], true);
+        r.case("trim", vec![format!(" {} ", fw)], false, vec![s(fw)], true);
+        r.case("trim_start", vec![format!("  {}", fw)], false, vec![s(fw)], true);
+        r.case("trim_end", vec![format!("{}  ", fw)], false, vec![s(fw)], true);
+        r.case("lowercase", vec![fw.to_uppercase()], false, vec![s(fw.to_lowercase())], true);
+        r.case("uppercase", vec![fw.to_lowercase()], false, vec![s(fw.to_uppercase())], true);
+        r.case("substring", vec![format!("x{}", fw), "1".into()], false, vec![s(fw)], true);
+        r.case("substring", vec![format!("x{}y", fw), "1".into(), (1 + fw.len()).to_string()], false, vec![s(fw)], true);
+        r.case("replace", vec![format!("x{}", fw), "x".into(), String::new()], false, vec![s(fw)], true);
+        r.case("replace", vec!["x".into(), "x".into(), fw.to_string()], false, vec![s(fw)], true);
+    }
+
     // numeric comparison
     let nums = ["-2", "-1", "0", "1", "1.5", "2", "10", "-1.5", "0.5", "100", "abc", "", "1e3", " 1", "0x10", "1,5", "-0", "-0.0", "0.0", "00", "1.0"];
     for a in nums {
@@ -501,7 +520,7 @@ pub fn crash_sig(_case: &Value, kind: &str) -> String {
     kind.to_string()
 }
 
-pub const RULE: &str = "every text up to the length bound over {a b SP e-acute emoji} x every needle up to length 2 through length/strlen/is_empty/trim*/uppercase/lowercase/indexof/last_indexof/contains/starts_with/ends_with/equals/eq/concat/replace/split; substring with every index and index pair from -(len+2) to len+2 plus non-numeric junk; less_than/greater_than over a 21x21 number pool (incl. -0, -0.0, 0.0, 00, 1.0); calc over n op m, the same as one argument, and ( n op m ) op2 k with exactly representable results; range over the grid and non-numeric arguments. Oracle: Rust's own string operations in byte units, documented substring semantics (error result for out-of-range, non-boundary or non-numeric indexes; an index equal to the text length is left open), numeric order, exact arithmetic. Non-trivial: multi-byte text, negative/out-of-range/non-numeric index, non-integer number. states = distinct (command, result class, arity); transitions = real command invocations; 14 further texts whose case mapping or trimming is not character by character (final sigma, sharp s, dotted capital I, ligature, digraphs, combining mark, no-break / ideographic / em space, TAB and LF). Scale cases: texts of 300/70000 (thorough 1000000) bytes built from a one- and a multi-byte block around a marker: length, indexof, last_indexof, contains, starts/ends_with, substring forms, replace, split, uppercase, trim; calc / less_than / greater_than / equals at the edge of the exactly representable integers (2^53)";
+pub const RULE: &str = "every text up to the length bound over {a b SP e-acute emoji} x every needle up to length 2 through length/strlen/is_empty/trim*/uppercase/lowercase/indexof/last_indexof/contains/starts_with/ends_with/equals/eq/concat/replace/split; substring with every index and index pair from -(len+2) to len+2 plus non-numeric junk; less_than/greater_than over a 21x21 number pool (incl. -0, -0.0, 0.0, 00, 1.0); calc over n op m, the same as one argument, and ( n op m ) op2 k with exactly representable results; range over the grid and non-numeric arguments. Oracle: Rust's own string operations in byte units, documented substring semantics (error result for out-of-range, non-boundary or non-numeric indexes; an index equal to the text length is left open), numeric order, exact arithmetic. Non-trivial: multi-byte text, negative/out-of-range/non-numeric index, non-integer number. states = distinct (command, result class, arity); transitions = real command invocations; 14 further texts whose case mapping or trimming is not character by character (final sigma, sharp s, dotted capital I, ligature, digraphs, combining mark, no-break / ideographic / em space, TAB and LF). Scale cases: texts of 300/70000 (thorough 1000000) bytes built from a one- and a multi-byte block around a marker: length, indexof, last_indexof, contains, starts/ends_with, substring forms, replace, split, uppercase, trim; calc / less_than / greater_than / equals at the edge of the exactly representable integers (2^53). Results that a condition would read as false (0, false, no, their capitals) or as syntax (and, or, not, parentheses) arrived at through concat at every split point, trim*, case mapping, substring and replace";
 pub const ASSUMPTIONS: &[&str] = &["arguments are handed to the commands as already-bound values (run_instruction), so the parser is not in the loop", "division is only generated where the quotient is exact; number spellings such as 1e3 or ' 1' may be rejected or accepted but never mis-ordered"];
 pub const EXHAUSTIVE: bool = true;
 pub const WALL_CAP_S: (u64, u64) = (50, 1500);
